@@ -31,7 +31,7 @@ RUNTIME_UNITS = ["foam_c.c", "foam_i.c", "foam_cfp.c"]
 
 # calls that only change representation, not value
 COLLECT = None   # set only by tools/freeze_c04.py (developer bootstrap), never by a check
-ADAPTERS = {"cfoldArrToString": 0}
+ADAPTERS = {"cfoldArrToString": 0, "bintSmall": 0}      # bintSmall(x): the value of an immediate x (B9 proves the immediacy)
 
 
 def load_frozen(name):
@@ -80,6 +80,12 @@ BINT_CMP = {
 def adapt(t, used):
     if not isinstance(t, tuple) or t[0] in ("arg", "int", "flt", "str", "sym", "opaque"):
         return t
+    # parity of an immediate big integer written with C's %: (bintSmall(x) % 2) == 0 is "even", != 0 is "odd";
+    # `== 1` is NOT "odd" (the remainder of a negative odd value is -1) and is left as it is, to be reported as a difference
+    if t[0] == "bin" and t[1] in ("==", "!=") and len(t) == 4 and t[3] == ("int", 0) and isinstance(t[2], tuple) and \
+            t[2][:2] == ("bin", "%") and t[2][3] == ("int", 2) and isinstance(t[2][2], tuple) and t[2][2][:2] == ("call", "bintSmall"):
+        used.add("parity of an immediate: (bintSmall(x) % 2) ==/!= 0 -> bit 0 of x")
+        return ("bin", t[1], ("call", "bintBit", adapt(t[2][2][2], used), ("int", 0)), ("int", 0))
     t = tuple(adapt(x, used) if isinstance(x, tuple) else x for x in t)
     if t[0] == "call":
         if t[1] in ADAPTERS and len(t) > 2:
